@@ -49,6 +49,10 @@ def parseRows : Nat → List String → Option (Graph × List String)
     pure (r :: g, rest)
   | _, _ => none
 
+def ascending : Row → Bool
+  | a :: b :: rest => decide (a.1 < b.1) && ascending (b :: rest)
+  | _ => true
+
 def parseCase (toks : List String) : Option (Case × List String) :=
   match toks with
   | "fm" :: wt :: mi :: mb :: mp :: mm :: n :: rest => do
@@ -69,6 +73,8 @@ def parseCase (toks : List String) : Option (Case × List String) :=
         let (ws, rest) ← takeParsed parseInt? l rest
         -- sprs invariant: column indices < number of rows (square matrix)
         if g.any (fun r => r.any (fun e => decide (g.length ≤ e.1))) then none else
+        -- … and strictly ascending inside a row
+        if g.any (fun r => !(ascending r)) then none else
         pure ({ f64w, mi, prm := { maxPasses := mp, maxMoves := mm, maxBad := mb, dbg := true },
                 g, p, ws }, rest)
       | [] => none
@@ -130,6 +136,7 @@ def cutoff : Nat → List Nat → List Nat → List Nat → List Nat → Nat
 
 inductive Search where
   | found | exhausted | budget
+deriving Inhabited
 
 partial def search (c : Case) (capOpt : Option Int) (cap : Int) (target : String)
     (im ir : List Nat) : List (Tbl × Nat) → Nat → Search
